@@ -139,7 +139,7 @@ func (o *oracles) viewOpened(op Op, r OpResult) {
 		o.s.res.Count("probe_view_opened_during_jobs", 1)
 		o.s.res.NonTriv = true
 	}
-	if !o.on("C10", "C05", "C07", "C12") {
+	if !o.on("C10", "C05", "C07", "C08", "C12") {
 		if v.Err != "" && o.on("C13") {
 			o.violate("view-read", "read-failed", "opening a view failed: "+v.Err)
 		}
@@ -159,7 +159,7 @@ func (o *oracles) viewRead(op Op, r OpResult) {
 	if hv == nil || v == nil {
 		return
 	}
-	if !o.on("C10", "C05", "C07") {
+	if !o.on("C10", "C05", "C07", "C08") {
 		return
 	}
 	if v.Err != "" {
